@@ -123,6 +123,10 @@ func (obj Object) CompletionAtPos(ctx context.Context, pos hcl.Pos) []lang.Candi
 				// it means the attribute is likely quoted
 				if pos.Byte >= attrRange.Start.Byte {
 					prefixLen := pos.Byte - attrRange.Start.Byte
+					if prefixLen > len(attrName) {
+						// the raw key may be longer than the decoded name (e.g. escapes)
+						prefixLen = len(attrName)
+					}
 					prefix = attrName[0:prefixLen]
 				}
 
